@@ -108,3 +108,23 @@ Theorem C02_layout_output_is_the_input_any_positioner : forall (A : Type) (eqA :
   Permutation (map (id_pair A ids) oes) es.
 Proof. exact Gx7_layout_output. Qed.
 Print Assumptions C02_layout_output_is_the_input_any_positioner.
+
+(* ---------- with spline routing too: the output graph does not depend on what the router and the fitter return
+   (no contract on the oracles; Proofs/SplinePipeline2.v) ---------- *)
+From Autog Require Import Geom SplineStruct Splines PipelineSpl SplineRouting SplinePipeline SplinePipeline2.
+
+Theorem C02_component_end_to_end_any_router : forall shortest fit mk_inner bk o g g' x, component_input g -> routed_p5 (o_p5 o) ->
+  layout_component_sx shortest fit mk_inner bk o g = Ok (g', x) -> E1_statement g g'.
+Proof. exact Gs1_output_graph_any. Qed.
+Print Assumptions C02_component_end_to_end_any_router.
+
+Theorem C02_layout_output_is_the_input_any_router : forall shortest fit mk_inner (A : Type) (eqA : A -> A -> bool), (forall x y, eqA x y = true <-> x = y) ->
+  forall bk o fixed sizes es ids ns oes xs, routed_p5 (o_p5 o) ->
+  layout_sx shortest fit mk_inner A eqA bk o fixed sizes es = Ok (ids, (ns, oes, xs)) -> o_virtual o = false ->
+  NoDup ids /\ (forall x, In x ids <-> exists p, In p es /\ In x p) /\
+  Permutation (map on_id ns) (iota 0 (length ids)) /\
+  (forall a, In a ns -> exists x, nth_error ids (on_id a) = Some x /\
+                                  (on_w a, on_h a) = SizesProofs.size_of A eqA fixed sizes x (0, 0)%Q) /\
+  Permutation (map (id_pair A ids) oes) es.
+Proof. exact Gs7_layout_output_any. Qed.
+Print Assumptions C02_layout_output_is_the_input_any_router.
